@@ -71,7 +71,11 @@ def gen(rng, tier):
         else:
             subspecs = subs
     n = rng.choice([1, 1, 2, 2, 3, 4, 5, 6, 8, 10, 12] + ([16, 20, 24] if big else []))
+    if rng.random() < 0.012 and sg.size(ast) <= 12 and not any(x[0] == 'exp' for x in sg.walk(ast)):
+        n = rng.choice([65, 100, 130, 257, 300])      # a long log (fast paths that switch at a size, identity of small ints ...)
     data = world.gen_trace(rng, vars_, n, p_bigint=0.06)
+    if rng.random() < 0.08:
+        common.nudge_to_thresholds(rng, ast, data)      # samples on, or a few 1e-8 beside, the constants of the formula
     clocks = [world.perfect_clock(n)]
     fired = {}
     for _ in range(rng.randint(1, 2)):
